@@ -326,9 +326,12 @@ def _refuse_manager(rep, ex: Explorer):
     qual = f"{INF}.inference"
     site = fn_label(ex.prog, qual)
 
+    qref = {}
+
     def setup(I):
         s, es, bb = _self(I, extra={"preprocessing_done": Sym("done", "bool"), "preprocessing_timed_out": Sym("pto", "bool")})
-        return [s, _queries(I), Sym("timeout", "int"), Sym("multi", "bool")], {}
+        qref["q"] = _queries(I)
+        return [s, qref["q"], Sym("timeout", "int"), Sym("multi", "bool")], {}
 
     summ = dict(SUMMARIES)
     summ[f"{INF}.single_inference"] = delegate("single_inference", raises=())
@@ -338,6 +341,16 @@ def _refuse_manager(rep, ex: Explorer):
     for p in paths:
         done, pto = decided(p, ("truthy", "done")), decided(p, ("truthy", "pto"))
         dele = [ev for ev, Q in iter_events(p.events) if ev.kind == "delegate"]
+        for ev in dele:
+            # both evaluation wrappers get (the submitted queries, the per-query budget), each in its own role
+            tfi = ex.prog.functions.get(f"{INF}.{ev.func}")
+            params = [a.arg for a in tfi.node.args.args] if tfi is not None else []
+            b_ = {params[i]: v for i, v in enumerate(ev.args) if i < len(params)}
+            b_.update(ev.kwargs)
+            qv, tv = b_.get("queries"), b_.get("timeout")
+            okq = isinstance(qv, Ref) and qv == qref.get("q") and tv == Sym("timeout", "int")
+            rep.check(okq, "ROWS.key", f"{site}:{ev.node.lineno}", f"arguments of {ev.func}", "the submitted queries and the per-query budget are handed to the evaluation wrapper in their own roles",
+                      extracted=f"queries={qv!r}, timeout={tv!r}", required="(queries, timeout)", function=site)
         if done is False and pto is False:
             n += 1
             rep.check(p.outcome[0] == "raise" and not dele, "REFUSE", site, "not preprocessed", "queries are refused when the base was never preprocessed",
